@@ -11,10 +11,13 @@ PUR = CheckFn("purity", "Model.Purity", "purity_check",
               Tup(List(NN), List(Tup(Nat, NN, NN)), List(NN), List(NN), List(NN), List(NN)))
 from harness.props import _c18_heap as H
 HEAPFN = H.HEAP
-CHECKFNS = [PUR, HEAPFN]
+RTAB = CheckFn("ruletable", "Model.RuleTable", "ruletable_check",
+               Tup(List(Tup(NN, Nat)), List(NN), List(Tup(NN, Nat)), Bool, Bool))
+CHECKFNS = [PUR, HEAPFN, RTAB]
 ASSUMPTIONS = [
-    "which torch calls alias or write is runtime behaviour: a TorchFunctionMode monitor records every in-place / out= torch call made during a query and the storage it writes; storages reachable from the arguments before the call are the caller's, all others count as allocated inside the call",
-    "deep snapshots (structure text, label tables, domain values, storage bytes, strides, defaults, requires_grad, grad presence) are hashed with sha1 and compared as numbers inside Coq",
+    "which torch calls alias or write is runtime behaviour: a TorchFunctionMode monitor records every in-place / out= torch call made during a query and the storage it writes; storages reachable from the arguments before the call are the caller's, all others count as allocated inside the call; before the trace is handed to the checker the storage addresses are renumbered (injectively, by first appearance) and runs of consecutive writes to one storage are collapsed into one event",
+    "deep snapshots (structure text, label tables, domain values, storage bytes, strides, defaults, requires_grad, grad presence; and one line per value reachable from the grammar object through attributes / dict entries in order / sequences / sets, with container types, sharing, storage addresses and tensor version counters) are hashed with sha1 and compared as numbers inside Coq; the snapshot reads private attributes (vars(g), e.g. _rules) of the objects as they are",
+    "rule-table check: the harness reads HRG._rules (keys in order, number of rules per key) before and after every query and g == copy-taken-before; Model.RuleTable.ruletable_check compares them with what the modelled lookup loop leaves behind (the table unchanged); that the queries read rules only through HRG.rules(x) is read off the code, not checked",
     "results are compared with the same call on a fresh deep copy and with a repeated call, after renaming implicit ids by order of appearance",
     "heap model (Model/Heap.v): the pattern layer (paxes/vaxes, unification; properties C05/C06) is not re-modelled -- every operation that computes a new pattern receives the layout of the result pattern (dense position -> physical position), __getitem__/__iter__ the selected physical positions, and every operation that allocates through to_dense()/binary operations the memory format (stride order) of the new tensor, all computed by the harness from the patterns involved (layouts through the library's own to_dense on an index probe); given these, WHICH storage a result uses, which cells are written and which object a call returns are computed by the model alone and compared with untyped_storage().data_ptr() / object identity / dense values of the real objects after every step",
     "heap model: a torch Tensor object is not a heap object of its own (no modelled operation changes the metadata of an existing Tensor; requires_grad_ is outside the model); values are small integers (exact in float64/float32) and the in-place maps are neg_, abs_, relu_, nan_to_num_, *= 2, *= 3; copy_ between overlapping views of one storage (unspecified in torch) and binary operations across dtypes are outside the modelled domain (verdict 30, never generated)",
@@ -32,6 +35,75 @@ def tensor_snap(t):
     d = t.detach()
     return "T(%s|%s|%s|%s|rg=%s|grad=%s|%s)" % (tuple(d.shape), d.stride(), d.storage_offset(), d.dtype, t.requires_grad, t.grad is not None,
                                                hashlib.sha1(d.contiguous().cpu().numpy().tobytes()).hexdigest())
+
+def deep_lines(root):
+    """structural snapshot of EVERYTHING reachable from `root` through attributes (vars / __slots__), dict
+    entries (in order, with the dict's type and default_factory), sequences and sets: one line per value,
+    `path = type value`; an object met a second time is written as a back reference, so that sharing is
+    part of the snapshot; tensors with shape, strides, offset, dtype, requires_grad, grad, storage address,
+    version counter and the sha1 of their bytes.  Only compared with a snapshot of the SAME objects taken
+    earlier in the same process (implicit ids and addresses are stable)."""
+    import torch
+    lines = []
+    def walk(o, path, memo, out):
+        if o is None or isinstance(o, (bool, int, float, str, bytes, complex)):
+            out.append("%s = %s %r" % (path, type(o).__name__, o)); return
+        if id(o) in memo:
+            out.append("%s -> @%d" % (path, memo[id(o)])); return
+        memo[id(o)] = len(memo)
+        tn = type(o).__module__ + "." + type(o).__qualname__
+        if isinstance(o, torch.Tensor):
+            try: extra = "ptr=%d ver=%d" % (o.untyped_storage().data_ptr(), o._version)
+            except Exception: extra = "?"
+            out.append("%s = %s %s %s" % (path, tn, tensor_snap(o), extra))
+            if o.grad is not None: walk(o.grad, path + ".grad", memo, out)
+            return
+        if isinstance(o, dict):
+            df = getattr(o, "default_factory", None)
+            out.append("%s = %s len=%d%s" % (path, tn, len(o), "" if df is None else " default_factory=%s" % getattr(df, "__name__", df)))
+            for i, (k, v) in enumerate(list(o.items())):
+                walk(k, "%s{%d}.key" % (path, i), memo, out); walk(v, "%s{%d}.val" % (path, i), memo, out)
+            return
+        if isinstance(o, (list, tuple)):
+            out.append("%s = %s len=%d" % (path, tn, len(o)))
+            for i, x in enumerate(list(o)): walk(x, "%s[%d]" % (path, i), memo, out)
+            return
+        if isinstance(o, (set, frozenset)):
+            out.append("%s = %s len=%d" % (path, tn, len(o)))
+            subs = []
+            for x in list(o):
+                sub = []; walk(x, "", dict(memo), sub); subs.append(" ; ".join(sub))
+            for i, t in enumerate(sorted(subs)): out.append("%s{%d} %s" % (path, i, t))
+            return
+        attrs = []
+        if hasattr(o, "__dict__") and not isinstance(o, type) and not callable(o):
+            attrs.extend(vars(o).items())
+        for c in type(o).__mro__:
+            for a in (getattr(c, "__slots__", ()) if not isinstance(getattr(c, "__slots__", ()), str) else ()):
+                if hasattr(o, a) and a not in ("__dict__", "__weakref__"): attrs.append((a, getattr(o, a)))
+        if attrs and type(o).__module__.split(".")[0] != "torch":
+            out.append("%s = %s attrs=%d" % (path, tn, len(attrs)))
+            for a, v in attrs: walk(v, "%s.%s" % (path, a), memo, out)
+        else:
+            out.append("%s = %s %s" % (path, tn, repr(o) if type(o).__module__.split(".")[0] in ("torch", "builtins") else ""))
+    walk(root, "g", {}, lines)
+    return lines
+
+def deep_digest(lines):
+    """the lines of a deep snapshot folded into one number per top-level attribute of the root (in order of
+    first appearance), so that the values sent to the checker stay small"""
+    groups = {}
+    for l in lines:
+        head = l.split(" ", 1)[0]
+        key = head[2:].split(".")[0].split("{")[0].split("[")[0] if head.startswith("g.") else ""
+        groups.setdefault(key, []).append(l)
+    return [h64(k + "\n" + "\n".join(v)) for k, v in groups.items()]
+
+def rule_table(g, ids):
+    """the keys of HRG._rules in order, each with the number of its rules (labels numbered by `ids`)"""
+    t = vars(g).get("_rules")
+    if t is None: return []
+    return [(ids.setdefault(l.name, len(ids)), len(rs)) for l, rs in list(t.items())]
 
 def canon_ids(text_items):
     return text_items
@@ -94,6 +166,20 @@ class Monitor:
         self.mode = Mode()
     def __enter__(self): self.mode.__enter__(); return self
     def __exit__(self, *a): return self.mode.__exit__(*a)
+
+def compact_trace(user, events):
+    """storages renumbered by order of first appearance (user storages first) and runs of consecutive writes
+    to one storage collapsed into one event: trace_ok gives the same verdict (it only compares storage
+    numbers, and no allocation lies inside a run), the values sent to the checker stay small"""
+    num = {}
+    def n(p): return num.setdefault(p, len(num) + 1)
+    u = [n(p) for p in sorted(user)]
+    out = []
+    for t, p, v in events:
+        e = (t, n(p))
+        if t == 1 and out and out[-1][:2] == e: continue
+        out.append((t, n(p), len(out) + 1 if t == 1 else 0))
+    return u, out
 
 def result_digest(name, res):
     import fggs
@@ -296,12 +382,140 @@ def heap_stream(tier, seed):
                heap_sample=dict(shape=list(runs[0][0]), ops=[{k: v for k, v in a.items() if k not in ("res", "on_clone")} for a in runs[0][1]]) if runs else None)
     return cov, violations
 
+GRID01 = [Fraction(0), Fraction(0), Fraction(1, 2), Fraction(1), Fraction(1, 4)]
+
+def add_terminal(rng, spec, typ):
+    el = len(spec["elabels"]); spec["elabels"].append(dict(term=True, type=list(typ)))
+    spec["weights"][el] = gen.nested([spec["nlabels"][nl] for nl in typ], lambda: rng.choice(GRID01))
+    return el
+
+def force_passthrough(rng, spec):
+    """for some nonterminals X (at least one): a rule  X(v1..vk) -> t(v1..vk)  whose right-hand side is ONE
+    terminal edge attached exactly to the external nodes in order (its value IS the weight tensor of t: any
+    identity shortcut in einsum / project / to_dense hands the caller's tensor to the solver), mostly as the
+    only rule of X without nonterminal edges, and a recursive rule  X(v) -> X(u) step(u1,v1)..step(uk,vk)
+    (X -> X c for arity 0) so that X lies in a recursive component; the recursive one at a random position of the rule list, the pass-through rule in half of the cases first"""
+    el = spec["elabels"]
+    nts = [i for i, e in enumerate(el) if not e["term"]]
+    chosen = [x for x in nts if rng.random() < 0.75] or [rng.choice(nts)]
+    for x in chosen:
+        typ = list(el[x]["type"]); k = len(typ)
+        t = add_terminal(rng, spec, typ)
+        base = dict(lhs=x, nodes=list(typ), edges=[(t, list(range(k)))], ext=list(range(k)))
+        if rng.random() < 0.7:
+            spec["rules"] = [r for r in spec["rules"] if not (r["lhs"] == x and all(el[e]["term"] for e, _ in r["edges"]))]
+        if k == 0:
+            rec = dict(lhs=x, nodes=[], edges=[(x, []), (add_terminal(rng, spec, []), [])], ext=[])
+        else:
+            steps = [add_terminal(rng, spec, [nl, nl]) for nl in typ]
+            rec = dict(lhs=x, nodes=typ + typ, edges=[(x, list(range(k, 2 * k)))] + [(steps[j], [k + j, j]) for j in range(k)], ext=list(range(k)))
+        new = [base, rec]; rng.shuffle(new)
+        for r in new: spec["rules"].insert(0 if (r is base and rng.random() < 0.5) else rng.randint(0, len(spec["rules"])), r)
+    spec["features"] = sorted(set(spec["features"]) | {"passthrough_rule"})
+    spec["recursive"] = True
+
+def force_ruleless(rng, spec):
+    """a nonterminal WITHOUT rules: declared only (unreachable), or used by an additional alternative of some
+    rule (which then contributes zero), with arity 0-2"""
+    el = spec["elabels"]
+    nls = len(spec["nlabels"])
+    y = len(el); el.append(dict(term=False, type=[rng.randrange(nls) for _ in range(rng.choice([0, 0, 1, 2]))]))
+    if spec["rules"] and rng.random() < 0.7:
+        r = copy.deepcopy(rng.choice(spec["rules"]))
+        att = []
+        for nl in el[y]["type"]:
+            cands = [i for i, l in enumerate(r["nodes"]) if l == nl]
+            if not cands: r["nodes"].append(nl); cands = [len(r["nodes"]) - 1]
+            att.append(rng.choice(cands))
+        r["edges"].insert(rng.randint(0, len(r["edges"])), (y, att))
+        spec["rules"].insert(rng.randint(0, len(spec["rules"])), r)
+    spec["features"] = sorted(set(spec["features"]) | {"ruleless_nt"})
+
+def make_queries_sr(rng, spec, sr):
+    """queries in ONE semiring (the one the weights were written for), all methods"""
+    import fggs
+    qs = []
+    for m in ("fixed-point", "newton"):
+        qs.append(("sum_product[%s,%s]" % (sr.name, m), lambda g, m=m: fggs.sum_product(g, semiring=sr.semiring(), method=m, kmax=60)))
+        qs.append(("sum_products[%s,%s]" % (sr.name, m), lambda g, m=m: fggs.sum_products(g, semiring=sr.semiring(), method=m, kmax=60)))
+    if sr.name != "bool":
+        xi = tuple(0 for _ in spec["elabels"][spec["start"]]["type"])
+        vs = fggs.ViterbiSemiring(dtype=sr.torch_dtype())
+        qs.append(("viterbi", lambda g: fggs.viterbi(g, xi, semiring=vs, kmax=6)))
+    qs.append(("factorize_fgg[min_fill]", lambda g: fggs.factorize_fgg(g, method="min_fill")))
+    qs.append(("factorize_hrg", lambda g: fggs.factorize_hrg(g)))
+    qs.append(("conjoin_hrgs", lambda g: fggs.conjoin_hrgs(g, g)))
+    qs.append(("json", lambda g: fggs.fgg_to_json(g)))
+    return qs
+
+def inplace_update(w):
+    t = w.physical if hasattr(w, "physical") else w
+    if str(t.dtype) == "torch.bool": t.logical_not_()
+    else: t.mul_(0.5)
+
+def history(rng, spec, g, rg, seq, stream, vals, metas, rtvals, rtmetas, hist):
+    """one history of calls on the SAME grammar object, with in-place weight updates by the caller in between"""
+    import torch
+    first = {}; called = []
+    ids = {l.name: i for i, l in enumerate(g.edge_labels())}
+    for name, q in seq:
+        forced = (name == "<update>")
+        if (forced or rng.random() < 0.3) and g.factors:
+            if called and not forced: name, q = rng.choice(called)     # repeat an earlier query right after the update
+            # the caller updates a weight tensor in place (as an optimiser step does); every later
+            # query must see the new values (no stale caches), which the fresh-copy comparison checks
+            with torch.no_grad():
+                for fac in (list(g.factors.values()) if forced else [rng.choice(list(g.factors.values()))]):
+                    inplace_update(fac.weights)
+            first = {}
+            hist["<inplace weight update>"] = hist.get("<inplace weight update>", 0) + 1
+        if forced: continue
+        hist[name.split("[")[0]] = hist.get(name.split("[")[0], 0) + 1
+        called.append((name, q))
+        fresh = rebuild(g, rg)
+        ref = result_digest(name, call(q, fresh))
+        try:
+            cp = g.copy(); eq0 = bool(g == cp) and bool(cp == g) and not bool(g != cp)
+        except Exception:
+            cp = None; eq0 = True
+        tab0 = rule_table(g, ids)
+        deep0 = deep_lines(g)
+        before = [h64(p) for p in hrg_snap(g)] + deep_digest(deep0)
+        user = user_storages(g)
+        with Monitor(user) as mon:
+            res = call(q, g)
+        deep1 = deep_lines(g)
+        after = [h64(p) for p in hrg_snap(g)] + deep_digest(deep1)
+        tab1 = rule_table(g, ids)
+        try:
+            eq1 = True if cp is None else (bool(g == cp) and bool(cp == g) and not bool(g != cp))
+        except Exception:
+            eq1 = False
+        dig = result_digest(name, res)
+        r1 = first.setdefault(name, dig)
+        cu, ctr = compact_trace(user, mon.events)
+        vals.append((cu, ctr, before, after, ref + r1, dig + dig))
+        meta = dict(kind="query", stream=stream, monitor_writes=sum(1 for e in mon.events if e[0] == 1), writes_to_caller_storages=sum(1 for e in mon.events if e[0] == 1 and e[1] in user), spec=gen.spec_jsonable(spec), requires_grad=rg, query=name, sequence=[s for s, _ in seq],
+                    result_is_exception=isinstance(res, Exception) and type(res).__name__)
+        if deep0 != deep1:
+            s0, s1 = set(deep0), set(deep1)
+            meta["snapshot_lines_only_before"] = [l for l in deep0 if l not in s1][:6]
+            meta["snapshot_lines_only_after"] = [l for l in deep1 if l not in s0][:6]
+        metas.append(meta)
+        nts = [ids.setdefault(x.name, len(ids)) for x in g.nonterminals()]
+        rtvals.append((tab0, nts, tab1, eq0, eq1))
+        rtmetas.append(dict(kind="rule-table", stream=stream, spec=gen.spec_jsonable(spec), query=name, sequence=[s for s, _ in seq],
+                            labels={v: k for k, v in ids.items()}, rule_table_before=tab0, rule_table_after=tab1,
+                            nonterminals_looked_up=nts, equal_to_copy_before=eq0, equal_to_copy_after=eq1))
+
+CONFIGS = [("bool", "bool"), ("real", "float64"), ("log", "float64"), ("viterbi", "float64"), ("real", "float32")]
+
 def run(tier, seed):
     import torch, fggs
     hcov, hviol = heap_stream(tier, seed)
     rng = random.Random(seed)
     n = int(os.environ.get("VERIF_N", 0)) or (24 if tier == "quick" else 2500)
-    violations = []; vals = []; metas = []; distinct = set(); hist = {}
+    violations = []; vals = []; metas = []; rtvals = []; rtmetas = []; distinct = set(); hist = {}; feat = {}; cfghist = {}
     for i in range(n):
         recursive = (i % 3 == 0)
         spec = gen.random_spec(rng, recursive=recursive, allow_inf=False, max_nt=3, max_dom=2, max_nodes=3 if recursive else 4, max_edges=3, dup_ext=False)
@@ -323,35 +537,35 @@ def run(tier, seed):
             for nm, q in qs: kinds.setdefault(nm.split("[")[0], (nm, q))
             base = list(kinds.values())
             seq = base + [("<update>", None)] + base
-        first = {}
-        called = []
-        for name, q in seq:
-            forced = (name == "<update>")
-            if (forced or rng.random() < 0.3) and g.factors:
-                if called and not forced: name, q = rng.choice(called)     # repeat an earlier query right after the update
-                # the caller updates a weight tensor in place (as an optimiser step does); every later
-                # query must see the new values (no stale caches), which the fresh-copy comparison checks
-                with torch.no_grad():
-                    for fac in (list(g.factors.values()) if forced else [rng.choice(list(g.factors.values()))]):
-                        w = fac.weights
-                        (w.physical if hasattr(w, "physical") else w).mul_(0.5)
-                first = {}
-                hist["<inplace weight update>"] = hist.get("<inplace weight update>", 0) + 1
-            if forced: continue
-            hist[name.split("[")[0]] = hist.get(name.split("[")[0], 0) + 1
-            called.append((name, q))
-            fresh = rebuild(g, rg)
-            ref = result_digest(name, call(q, fresh))
-            before = [h64(p) for p in hrg_snap(g)]
-            user = user_storages(g)
-            with Monitor(user) as mon:
-                res = call(q, g)
-            after = [h64(p) for p in hrg_snap(g)]
-            dig = result_digest(name, res)
-            r1 = first.setdefault(name, dig)
-            vals.append((sorted(user), list(mon.events), before, after, ref + r1, dig + dig))
-            metas.append(dict(kind="query", spec=gen.spec_jsonable(spec), requires_grad=rg, query=name, sequence=[s for s, _ in seq],
-                              result_is_exception=isinstance(res, Exception) and type(res).__name__))
+        for f in spec["features"]: feat[f] = feat.get(f, 0) + 1
+        history(rng, spec, g, rg, seq, "random", vals, metas, rtvals, rtmetas, hist)
+    # forced-shape stream: every semiring with weights of its own dtype (Bool with bool weights), all methods;
+    # grammars with pass-through rules in recursive components and with nonterminals that have no rules
+    m = int(os.environ.get("VERIF_N_SHAPES", 0)) or (40 if tier == "quick" else 1500)
+    for i in range(m):
+        srname, dt = CONFIGS[i % len(CONFIGS)]
+        sr = SR(srname, dt)
+        variant = (i // len(CONFIGS)) % 4
+        spec = gen.random_spec(rng, recursive=(variant != 1), allow_inf=False, max_nt=3, max_dom=3, max_nodes=3, max_edges=2, dup_ext=False)
+        if variant != 1: force_passthrough(rng, spec)
+        if variant != 0: force_ruleless(rng, spec)
+        if spec.get("recursive") and srname in ("real", "log"):
+            spec["weights"] = {el: gen.nested_map(w, lambda v: v / 4 if v <= 1 else Fraction(1, 8)) for el, w in spec["weights"].items()}
+        distinct.add(json.dumps(gen.spec_jsonable(spec), sort_keys=True))
+        b = gen.build_fgg(spec, sr.wconv, ids=["explicit", "implicit", "mixed"][i % 3], rng=rng, dtype=sr.torch_dtype(), patterned=(variant == 3))
+        g = b.fgg
+        rg = (srname != "bool" and i % 2 == 0)
+        if rg:
+            for f in g.factors.values():
+                try: f.weights.requires_grad_()
+                except Exception: pass
+        qs = make_queries_sr(rng, spec, sr)
+        seq = [qs[1]] + [rng.choice(qs) for _ in range(rng.randint(4, 6))]
+        rng.shuffle(seq)
+        for f in spec["features"]: feat[f] = feat.get(f, 0) + 1
+        ck = "%s/%s%s" % (srname, dt, "/patterned" if variant == 3 else "")
+        cfghist[ck] = cfghist.get(ck, 0) + 1
+        history(rng, spec, g, rg, seq, "forced-shapes", vals, metas, rtvals, rtmetas, hist)
     clone_checks(rng, violations, vals, metas)
     codes, nk = run_model(PUR, vals, seed=seed, coq_sample=20, tag="c18")
     WHAT = {1: "an in-place torch operation wrote to a storage owned by the caller (or to one not allocated inside the call)",
@@ -361,10 +575,25 @@ def run(tier, seed):
         if c == 0: continue
         violations.append(Violation(WHAT.get(c, "verdict %d" % c), case=m, oracle="trace_ok / snapshot equality", corr="C18 / corr:purity",
                                     failing_input_found=True, call=m.get("query") or m.get("op")))
-    nwrites = sum(sum(1 for e in v[1] if e[0] == 1) for v in vals)
+    rcodes, rnk = run_model(RTAB, rtvals, seed=seed, coq_sample=10, tag="c18rt")
+    RWHAT = {2: "a read-only query changed the grammar's rule table (HRG._rules): looking up the rules of a nonterminal that has none inserted an entry for it, exactly as the defaultdict lookup of Model/RuleTable.v (query_dd) does; the model's lookup (C18_rules_lookup_pure) leaves the table as it was",
+             4: "a read-only query changed the grammar's rule table (HRG._rules: keys in order with the number of rules each); the model's lookup (C18_rules_lookup_pure) leaves the table as it was",
+             3: "after the query the grammar is no longer == (HRG.__eq__, both directions, and !=) to the copy taken just before the call, although it was before"}
+    for m_, c in zip(rtmetas, rcodes):
+        if c == 0: continue
+        violations.append(Violation(RWHAT.get(c, "rule table verdict %d" % c), case=m_, observed=dict(rule_table_after=m_["rule_table_after"], equal_to_copy_after=m_["equal_to_copy_after"]),
+                                    expected=dict(rule_table_after=m_["rule_table_before"], equal_to_copy_after=m_["equal_to_copy_before"]),
+                                    oracle="Model.RuleTable.ruletable_check (C18_rules_lookup_pure, C18_ruletable_check_sound)", corr="C18 / corr:rule-table",
+                                    failing_input_found=True, call=m_.get("query")))
+    nwrites = sum(m_.get("monitor_writes", 0) for m_ in metas) + sum(sum(1 for e in v[1] if e[0] == 1) for v, m_ in zip(vals, metas) if "monitor_writes" not in m_)
     violations.extend(hviol)
+    ruleless_calls = sum(1 for v in rtvals if set(v[1]) - {k for k, _ in v[0]})
+    passthrough_fp = sum(1 for m_ in metas if m_.get("stream") == "forced-shapes" and "passthrough_rule" in m_["spec"].get("features", []) and "fixed-point" in (m_.get("query") or ""))
     cov = dict(evaluations=len(vals) + hcov["heap_sequences"], distinct_nontrivial=len(distinct) + hcov["heap_distinct_nontrivial"], inplace_writes_monitored=nwrites, query_histogram=hist,
-               rule="random FGG specs x random interleavings (6-10 calls) of sum_product (3 semirings x 2 methods), sum_products, viterbi, factorize_fgg (3 methods), factorize_hrg, conjoin_hrgs, fgg_to_json on the SAME objects, weights with and without requires_grad; per call: deep snapshot before/after, write monitor trace, result vs fresh-copy result and vs first identical call; plus in-place operations on clones of PatternedTensors / MultiTensors; distinct_nontrivial = distinct specs + distinct heap-stream operation sequences in which two live objects share a storage (or one object is held twice) and something is mutated; heap stream: random sequences (3-12 operations) of clone / in-place maps / copy_ (both branches) / views (T, transpose, permute, flatten, unsqueeze, freshen, detach, expand, __getitem__, __iter__) / to / default_to / to_dense / project / binary operations / MultiTensor __setitem__, __getitem__, get, __delitem__, add_single, +=, -=, maximum_, copy_, clone, allclose over PatternedTensors of 5 shapes and 5 patterns, real objects vs the Coq heap model after every step",
+               feature_histogram=dict(sorted(feat.items())), forced_shape_configurations=dict(sorted(cfghist.items())),
+               calls_on_grammars_with_a_ruleless_nonterminal=ruleless_calls, fixed_point_calls_on_passthrough_grammars=passthrough_fp,
+               rule_table_checks=len(rtvals), rule_table_kernel_reevaluated=rnk,
+               rule="random FGG specs x random interleavings (6-10 calls) of sum_product (3 semirings x 2 methods), sum_products, viterbi, factorize_fgg (3 methods), factorize_hrg, conjoin_hrgs, fgg_to_json on the SAME objects, weights with and without requires_grad, the caller updating weights in place between calls; forced-shape stream: every semiring with weights of its own dtype (Bool with bool weights, Real float64/float32, Log, Viterbi) x methods fixed-point/newton of sum_product and sum_products (+ viterbi, factorize, conjoin, json), 5-7 calls per grammar, on grammars that get (a) for some nonterminals a pass-through rule X(v1..vk) -> t(v1..vk) (one terminal edge attached exactly to the externals, mostly the only rule of X without nonterminal edges) plus a recursive rule, at random positions of the rule list, (b) a nonterminal without any rule (declared only, or used in an extra alternative), (c) both, (d) both with patterned (diagonal / expanded) weights; per call: deep snapshot before/after = the old structure text AND one line per value reachable from the grammar object through attributes, dict entries (with dict type and key order: _rules, _node_labels, _edge_labels, domains, factors), sequences, sets, with sharing, and per tensor shape/strides/offset/dtype/requires_grad/grad/storage address/version counter/sha1 of the bytes; g == copy-taken-before (both directions and !=) before and after; the key table of _rules before/after judged by Model.RuleTable.ruletable_check; write monitor trace; result vs fresh-copy result and vs first identical call; plus in-place operations on clones of PatternedTensors / MultiTensors; distinct_nontrivial = distinct specs + distinct heap-stream operation sequences in which two live objects share a storage (or one object is held twice) and something is mutated; heap stream: random sequences (3-12 operations) of clone / in-place maps / copy_ (both branches) / views (T, transpose, permute, flatten, unsqueeze, freshen, detach, expand, __getitem__, __iter__) / to / default_to / to_dense / project / binary operations / MultiTensor __setitem__, __getitem__, get, __delitem__, add_single, +=, -=, maximum_, copy_, clone, allclose over PatternedTensors of 5 shapes and 5 patterns, real objects vs the Coq heap model after every step",
                kernel_reevaluated=nk, samples=[dict(meta=metas[0], trace=vals[0][1][:10])], **hcov,
                open_items=["the allocate/alias/write skeletons of multi_solve, solve, fixed_point, newton are not modelled function by function; the monitor observes what torch actually did on the explored histories",
                            "heap model: reshape/view (torch decides between view and copy by strides), MultiTensor.__add__/__sub__ (compositions of the modelled clone and add_single), requires_grad_ and the einsum/solve layer are not operations of the heap model",
@@ -384,7 +613,7 @@ def replay(path):
 
 MANIFEST = dict(
     level="proof",
-    text="Coq heap model of the container layer (Model/Heap.v: storages, PatternedTensor objects = storage + cells + layout + default, MultiTensor = key -> object reference; 25 operations transcribed from indices.py / multi.py with their sharing behaviour): C18_frame (every operation mutates only its target objects and writes only their storages), C18_clone_independent / C18_mclone_independent (after a clone EVERY operation sequence that only mutates objects made by/after the clone leaves every older object's denotation unchanged; by a watermark invariant over the sequence), C18_mclone_deep, C18_clone_equal / C18_mclone_equal (a clone denotes what its source denotes), and the witnesses C18_view_shares, C18_getitem_shares, C18_iter_shares, C18_to_same_dtype_shares, C18_copy_into_view_writes_source, C18_add_single_aliases, C18_shallow_clone_refuted (= seeded/C18-d). Correspondence: random operation sequences run on the real objects and through the extracted model; after every step the storage partition (data_ptr), every dense value/default, every dictionary and the identity of every returned object are compared, violations are shrunk to a minimal sequence; the clone clause itself is judged on the real objects by the model's discipline. Also: ownership model of in-place updates -- a trace of (allocate | write) events accepted by trace_ok leaves every caller-owned storage unchanged and every written storage was allocated inside the call. A TorchFunctionMode monitor records the actual in-place / out= torch calls of every query and the Coq checker judges the trace; deep snapshots of every argument before/after each call and result digests (vs a fresh deep copy and vs earlier identical calls) are compared in Coq, over random interleavings of all listed queries on the same objects.",
+    text="Coq heap model of the container layer (Model/Heap.v: storages, PatternedTensor objects = storage + cells + layout + default, MultiTensor = key -> object reference; 25 operations transcribed from indices.py / multi.py with their sharing behaviour): C18_frame (every operation mutates only its target objects and writes only their storages), C18_clone_independent / C18_mclone_independent (after a clone EVERY operation sequence that only mutates objects made by/after the clone leaves every older object's denotation unchanged; by a watermark invariant over the sequence), C18_mclone_deep, C18_clone_equal / C18_mclone_equal (a clone denotes what its source denotes), and the witnesses C18_view_shares, C18_getitem_shares, C18_iter_shares, C18_to_same_dtype_shares, C18_copy_into_view_writes_source, C18_add_single_aliases, C18_shallow_clone_refuted (= seeded/C18-d). Correspondence: random operation sequences run on the real objects and through the extracted model; after every step the storage partition (data_ptr), every dense value/default, every dictionary and the identity of every returned object are compared, violations are shrunk to a minimal sequence; the clone clause itself is judged on the real objects by the model's discipline. Rule table (Model/RuleTable.v: HRG._rules as an association list, add_rule, rules = lookup with a default, the loop of lookups of a query): C18_rules_lookup_pure (the lookups leave the table, with its key order, unchanged whatever labels are asked for -- also nonterminals without rules), C18_rules_after_add_rule, C18_ruletable_check_sound / _complete, C18_defaultdict_lookup_pure_iff (the defaultdict lookup of seeded/C18-f is read-only exactly when every label asked for has an entry); correspondence: key table of _rules before/after every query and == with a copy taken before, judged by ruletable_check. Also: ownership model of in-place updates -- a trace of (allocate | write) events accepted by trace_ok leaves every caller-owned storage unchanged and every written storage was allocated inside the call. A TorchFunctionMode monitor records the actual in-place / out= torch calls of every query and the Coq checker judges the trace; deep snapshots of every argument before/after each call and result digests (vs a fresh deep copy and vs earlier identical calls) are compared in Coq, over random interleavings of all listed queries on the same objects with in-place weight updates by the caller in between, in every semiring with weights of its own dtype (Bool with bool weights), methods fixed-point and newton, on random grammars and on grammars with forced pass-through rules X(v..) -> t(v..) in recursive components, nonterminals without rules, patterned weights.",
     note="Clone clause: proved for all operation sequences on the heap model of the container layer, whose sharing behaviour is compared with the real objects after every step of random sequences (notes/C18.md lists the 25 modelled operations and what is outside: reshape/view, __add__/__sub__, requires_grad_, the einsum/solve layer). Query part: partial -- which torch calls alias or write inside sum_product/viterbi/... is runtime behaviour; the model covers the ownership discipline, the monitor what torch did on the explored histories. Trusted: the pattern-layer parameters (layouts, selected positions, memory format) the harness hands to the heap model, the monitor's classification of in-place calls (name ends with '_' or out=), sha1 digests, harness. Side finding (not a C18 violation): MultiTensor.copy_ raises RuntimeError('dictionary changed size during iteration') whenever the destination has a key the source lacks (after deleting the first such key); modelled as it is.",
     technique="Coq heap model (separation/watermark invariant by induction over operation sequences) + model-vs-implementation sharing/value comparison with shrinking; Coq ownership-model theorem + runtime write monitor and snapshot oracle judged by the extracted checker",
     design_ref="DESIGN.md section 6, C18")
